@@ -25,9 +25,6 @@ type monC13 struct {
 	segs   map[PosKey]int                 // settlements since the last claim (one truncation each at most)
 	vmin   map[PosKey]*big.Rat            // smallest and largest value of the position since it last claimed, while
 	vmax   map[PosKey]*big.Rat            // it had something accrued
-	// a settlement happened while some asset had a staked total but no validator shares at all (the module then
-	// counts every validator as holding that asset's whole total and gives it a share of every reward)
-	phantom bool
 	dead   bool
 }
 
@@ -237,7 +234,6 @@ func (m *monC13) OnStep(r *Runner, st *Step) {
 			r.Probe("c13_settlement")
 			m.settle(r, pre, s)
 			if fullySlashedAsset(pre) || fullySlashedAsset(post) {
-				m.phantom = true
 				r.Probe("c13_settlement_with_asset_without_validator_shares")
 			}
 		}
@@ -340,9 +336,6 @@ func (m *monC13) OnStep(r *Runner, st *Step) {
 				}
 			}
 			switch {
-			case m.phantom && g.Cmp(w) < 0:
-				// part of a reward went to an asset nobody holds on that validator
-				cls = "payout-too-little:asset-without-validator-shares"
 			case orphan && g.Cmp(w) < 0:
 				// the asset's staked total was withdrawn down to zero by others while this (dust) delegation remained
 				cls = "payout-too-little:delegation-outlived-staked-total"
